@@ -52,6 +52,8 @@ func cmdVC(args []string) {
 	panicMode := fs.String("panic", "ignore", "obligation|ignore")
 	frame := fs.Bool("frame", false, "emit frame/store obligations")
 	lock := fs.Bool("lock", false, "lock-discipline obligations")
+	prop := fs.String("prop", "", "property id (selects tagged clauses)")
+	notime := fs.Bool("notimeouts", false, "assume no context ends (A-TIME)")
 	dump := fs.String("dump", "", "write the prelude to this file")
 	timeout := fs.Int("timeout", 10000, "ms per query")
 	verbose := fs.Bool("v", false, "verbose")
@@ -70,7 +72,7 @@ func cmdVC(args []string) {
 		fmt.Fprintln(os.Stderr, "no such function", key)
 		os.Exit(2)
 	}
-	tr := eng.translate(&Job{Fn: f, PanicMode: *panicMode, Frame: *frame, LockMode: *lock})
+	tr := eng.translate(&Job{Fn: f, PanicMode: *panicMode, Frame: *frame, LockMode: *lock, Prop: *prop, NoTimeouts: *notime})
 	for _, u := range tr.unsupported {
 		fmt.Println("UNSUPPORTED:", u)
 	}
